@@ -48,6 +48,7 @@ func (Driver) Info() core.Info {
 			"strings are valid UTF-8, floats are never NaN",
 		},
 		MinNontrivial: minNontrivialQ,
+		MemLimitKB:    8 << 20, // 8 GiB of address space per worker: a runaway allocation kills that worker only
 	}
 }
 
